@@ -27,6 +27,7 @@ Guard(s, i) ==
     [] op.k = "rm"   -> op.id \in NamesOf(s) \cup PlaceholderIds(s) \/ op.id = "zz"
     [] op.k = "disc" -> Present(s, op.l)
     [] op.k = "setf" -> Present(s, op.l)
+    [] op.k = "addc" -> Present(s, op.l)
     [] op.k = "ren"  -> op.id \in NamesOf(s)
     [] op.k \in {"settag", "deltag"} -> op.id \in NamesOf(s)
     [] op.k = "flush" -> s.queue # <<>>
